@@ -16,7 +16,7 @@ use std::rc::Rc;
 // Terms in which every operator is stuck on a variable (so the normaliser has to rebuild it rather
 // than compute it): for every binary operator `x op y`, `x op 1`, `1 op x`, the negation, and the
 // same under a conditional.
-fn stuck_operator_terms() -> Vec<(String, M)> {
+pub fn stuck_operator_terms() -> Vec<(String, M)> {
     use crate::model::mterm::{Op, rc};
     let x: Rc<str> = Rc::from("x");
     let y: Rc<str> = Rc::from("y");
